@@ -152,7 +152,12 @@ fn all_states(shape: &Shape, origin: u8, misses: u32) -> Vec<[u32; 6]> {
 
 fn build(shape: &Shape, passed: Option<u32>, origin_raw: u8, worst: bool, misses: Option<u32>, acc: f64, via_osu_map: Option<&rosu_pp::Beatmap>, combo: Option<u32>) -> Performance<'static> {
     // origin 3 = stable, said through the calculator's own lazer(false) setter instead of through the Difficulty
-    let (origin, by_setter) = if origin_raw == 3 { (1, true) } else { (origin_raw, false) };
+    // origin 4 = stable, said through the Difficulty, which then goes through its inspection form and back
+    let (origin, by_setter, via_inspect) = match origin_raw {
+        3 => (1, true, false),
+        4 => (1, false, true),
+        o => (o, false, false),
+    };
     let mut d = Difficulty::new();
     match origin {
         1 if !by_setter => d = d.lazer(false),
@@ -167,6 +172,9 @@ fn build(shape: &Shape, passed: Option<u32>, origin_raw: u8, worst: bool, misses
     }
     if let Some(k) = passed {
         d = d.passed_objects(k);
+    }
+    if via_inspect {
+        d = d.inspect().into_difficulty();
     }
     // map-backed variant: the osu! calculator gets accuracy (and misses) first and is switched to the shape's mode afterwards
     if let Some(m) = via_osu_map {
@@ -247,7 +255,7 @@ fn shapes(ctx: &Ctx) -> Vec<Shape> {
 
 fn main() {
     let ctx = Ctx::from_env("C13");
-    ctx.rule("case = (attribute shape with <= 5 (quick) / 8 (thorough) objects, miss count incl. unset and beyond the object count, origin lazer / stable (through the Difficulty or through the calculator's own lazer(false) setter) / classic where the mode distinguishes them, priority; for taiko also whole-map attributes of 2/3/5/8/12 hits used with passed_objects(k), k in {0,1,n/2,n-1}, the distributions then ranging over k hits); per case the targets are a 0.5% grid united with every achievable accuracy and every midpoint between neighbouring achievable accuracies +-1e-9; oracle = misses as given (clamped to the objects) and |target - accuracy(generated)| <= min over all distributions with the same misses + 1e-12; non-trivial = more than one achievable accuracy");
+    ctx.rule("case = (attribute shape with <= 5 (quick) / 8 (thorough) objects, miss count incl. unset and beyond the object count, origin lazer / stable (through the Difficulty, through the calculator's own lazer(false) setter, or through a Difficulty that went through inspect() and into_difficulty()) / classic where the mode distinguishes them, priority; for taiko also whole-map attributes of 2/3/5/8/12 hits used with passed_objects(k), k in {0,1,n/2,n-1}, the distributions then ranging over k hits); per case the targets are a 0.5% grid united with every achievable accuracy and every midpoint between neighbouring achievable accuracies +-1e-9; oracle = misses as given (clamped to the objects) and |target - accuracy(generated)| <= min over all distributions with the same misses + 1e-12; non-trivial = more than one achievable accuracy");
     ctx.assume("accuracy is the documented formula per mode (osu! slider parts at their maximum because they are not specified); ties are not violations");
 
     // (attribute shape, passed_objects): for taiko — where the judgements of a partial play are simply the first k hits — the
@@ -294,7 +302,7 @@ fn main() {
     for (si, (shape, full, passed, via_map)) in entries.iter().enumerate() {
         let passed = *passed;
         let n = shape.objects();
-        let origins: u64 = if shape.has_origins() { 4 } else { 1 };
+        let origins: u64 = if shape.has_origins() { 5 } else { 1 };
         let prios: u64 = if matches!(shape, Shape::Catch { .. }) { 1 } else { 2 };
         // miss options: unset, 0..=n, n+2
         let miss_opts = u64::from(n) + 3;
@@ -307,7 +315,7 @@ fn main() {
             let combo = combos[(idx % combos.len() as u64) as usize];
             let idx = idx / combos.len() as u64;
             let origin_raw = (idx % origins) as u8;
-            let origin = if origin_raw == 3 { 1 } else { origin_raw };
+            let origin = if origin_raw >= 3 { 1 } else { origin_raw };
             let r = idx / origins;
             let worst = r % prios == 1;
             let mi = r / prios;
@@ -367,7 +375,7 @@ fn main() {
                     let mode = mode.split(' ').next().unwrap_or("").to_lowercase();
                     l.violation(&format!("not_closest_{mode}"), || {
                         format!(
-                            "attributes={full:?} passed_objects={passed:?} combo={combo:?} shape={shape:?} origin={origin_raw} (0 lazer, 1 stable, 2 classic, 3 stable through the lazer(false) setter) worst={worst} misses={misses_arg:?} target accuracy={t}%\ngenerated {g:?}\n accuracy {ga} at distance {gd}; a distribution with the same misses reaches distance {best}"
+                            "attributes={full:?} passed_objects={passed:?} combo={combo:?} shape={shape:?} origin={origin_raw} (0 lazer, 1 stable, 2 classic, 3 stable through the lazer(false) setter, 4 stable through a Difficulty that went through inspect() and into_difficulty()) worst={worst} misses={misses_arg:?} target accuracy={t}%\ngenerated {g:?}\n accuracy {ga} at distance {gd}; a distribution with the same misses reaches distance {best}"
                         )
                     });
                     return;
